@@ -139,6 +139,8 @@ def module_env_from_ast(tree):
                     env[n.targets[0].id] = n.value.value
                 elif isinstance(n.value, ast.UnaryOp) and isinstance(n.value.op, ast.USub) and isinstance(n.value.operand, ast.Constant):
                     env[n.targets[0].id] = -n.value.operand.value
+                elif isinstance(n.value, ast.Call) and isinstance(n.value.func, ast.Name) and n.value.func.id == "namedtuple":
+                    env[n.targets[0].id] = RepoFunc(n.targets[0].id)  # a record constructor defined by the module
                 elif isinstance(n.value, ast.Call) and n.targets[0].id.isupper():
                     # module-level feature flags (HAS_NUMBAGG = module_available(...)): an unknown but fixed boolean
                     o = Opaque("flag:" + n.targets[0].id)
@@ -716,6 +718,7 @@ class Prims:
             raise Unsupported("comprehension over a symbolic-length sequence")
         out = []
         for item in it:
+            base = len(st.pc)
             s = st.fork()
             ex.assign(g.target, item, s)
             ok = True
@@ -726,6 +729,10 @@ class Prims:
                 ok = ok and bool(c)
             if ok:
                 out.append(self.eval1(ex, node.elt, s))
+            # facts established while evaluating the element (postconditions of callees) hold afterwards:
+            # with a concrete iterable every element expression is evaluated exactly once
+            for f in s.pc[base:]:
+                st.assume(f)
         return out
 
     # ------------------------------------------------------------------ calls
